@@ -5,7 +5,7 @@ export GOFLAGS=-mod=mod GOPROXY=off GOSUMDB=off GOTOOLCHAIN=local
 cd /verif
 python3 - <<'PY'
 import sys
-sys.path.insert(0, '/verif/tools')
+sys.path.insert(0, 'tools')
 import vlib
 out, t = vlib.build_harness()
 print('harness built: %s (%.1fs)' % (out, t))
